@@ -81,38 +81,7 @@ def run(run):
                 hv |= {_strip(x) for x in PV.expand_consistent(sm, None, c_.args[0], cn, stop=("options",))}
     run.check("R1", hv == {"compute_app_hash(options.app_path).hex()"}, "signapp hash = compute_app_hash(app path)", key="signapp|hash-source",
               where=sm.loc(), message=f"signapp builds the signer version from the hash {sorted(hv)[:2]}")
-    # `message` (and every operation without an existing authorization file) describes the image given on the command line
-    ops = ["hash", "message", "key", "eth", "manual"]
-    fresh = _strip("SignerAuthorization.for_signer_version(SignerVersion(compute_app_hash(options.app_path).hex(), options.iteration))")
-    sm_locals = set(PV.defs(sm, None)) | set(sm.params)
-    for op in ("message",):
-        def atom(e, op=op):
-            # named operation constants (module level) count as the literals they stand for
-            e = fold_consts(P, e, sm, None, locals_=sm_locals)
-            cp = cmp_parts(e)
-            if cp is None:
-                return None
-            l, o, r = cp
-            if norm(l) == "options.operation":
-                if o in ("==", "!=") and isinstance(r, ast.Constant):
-                    return ((op == r.value) == (o == "=="), True)
-                if o in ("in", "not in") and isinstance(r, (ast.List, ast.Tuple, ast.Set)) and all(isinstance(x, ast.Constant) for x in r.elts):
-                    return ((op in [x.value for x in r.elts]) == (o == "in"), True)
-            return None
-        n_sites = 0
-        for lf in Walker(A, sm, None, atom, max_leaves=2000, max_steps=60000).walk(gsm.entry):
-            for k, st, v in lf.effects:
-                for c_ in ([x for x in ast.walk(v) if isinstance(x, ast.Call)] if isinstance(v, ast.AST) else []):
-                    if call_name(c_) in ("save_to_jsonfile", "get_authorization_msg") and isinstance(c_.func, ast.Attribute):
-                        n_sites += 1
-                        recv = _strip(norm(lf.deep(c_.func.value, stop=("options",))))
-                        okv = recv == fresh if call_name(c_) == "save_to_jsonfile" else recv == _strip(
-                            "SignerVersion(compute_app_hash(options.app_path).hex(), options.iteration)")
-                        run.check("R1", okv, f"`{op}`: the authorization written / printed is the one of the given image and iteration",
-                                  key=f"signapp|{op}|{call_name(c_)}-source", where=sm.loc(st),
-                                  message=f"signapp {op}: `{call_name(c_)}` is applied to `{recv[:160]}`, not to the authorization freshly computed from the "
-                                          "image and iteration given on the command line (an existing output file would be re-used: hash of another image)")
-        run.floor("R1", f"authorization uses on the `{op}` paths", n_sites, 2)
+    signapp_message_rule(run, PV, "R1")
 
     # ---------------------------------------------------------------- R2
     run.rule("R2", "One-time key: defined once, inside main(), as ecdsa.SigningKey.generate(curve=ecdsa.SECP256k1) with no "
@@ -284,3 +253,42 @@ def run(run):
               key="signonetime|pubkey-file", where=so.loc(), message="the public key file does not receive sk's uncompressed verifying key (hex)")
     run.check("R3", len(stop_pairs) == 2, "exactly two kinds of files are written", key="signonetime|files", where=so.loc(),
               message=f"signonetime writes {len(stop_pairs)} kinds of files")
+
+
+def signapp_message_rule(run, PV, rid="R1"):
+    """`signapp message` describes the image and iteration given on the command line (shared with C17 under a prefix)."""
+    P, A = run.P, run.A
+    sm = P.func("signapp.main")
+    gsm = A.cfg(sm, None)
+    # `message` (and every operation without an existing authorization file) describes the image given on the command line
+    ops = ["hash", "message", "key", "eth", "manual"]
+    fresh = _strip("SignerAuthorization.for_signer_version(SignerVersion(compute_app_hash(options.app_path).hex(), options.iteration))")
+    sm_locals = set(PV.defs(sm, None)) | set(sm.params)
+    for op in ("message",):
+        def atom(e, op=op):
+            # named operation constants (module level) count as the literals they stand for
+            e = fold_consts(P, e, sm, None, locals_=sm_locals)
+            cp = cmp_parts(e)
+            if cp is None:
+                return None
+            l, o, r = cp
+            if norm(l) == "options.operation":
+                if o in ("==", "!=") and isinstance(r, ast.Constant):
+                    return ((op == r.value) == (o == "=="), True)
+                if o in ("in", "not in") and isinstance(r, (ast.List, ast.Tuple, ast.Set)) and all(isinstance(x, ast.Constant) for x in r.elts):
+                    return ((op in [x.value for x in r.elts]) == (o == "in"), True)
+            return None
+        n_sites = 0
+        for lf in Walker(A, sm, None, atom, max_leaves=2000, max_steps=60000).walk(gsm.entry):
+            for k, st, v in lf.effects:
+                for c_ in ([x for x in ast.walk(v) if isinstance(x, ast.Call)] if isinstance(v, ast.AST) else []):
+                    if call_name(c_) in ("save_to_jsonfile", "get_authorization_msg") and isinstance(c_.func, ast.Attribute):
+                        n_sites += 1
+                        recv = _strip(norm(lf.deep(c_.func.value, stop=("options",))))
+                        okv = recv == fresh if call_name(c_) == "save_to_jsonfile" else recv == _strip(
+                            "SignerVersion(compute_app_hash(options.app_path).hex(), options.iteration)")
+                        run.check(rid, okv, f"`{op}`: the authorization written / printed is the one of the given image and iteration",
+                                  key=f"signapp|{op}|{call_name(c_)}-source", where=sm.loc(st),
+                                  message=f"signapp {op}: `{call_name(c_)}` is applied to `{recv[:160]}`, not to the authorization freshly computed from the "
+                                          "image and iteration given on the command line (an existing output file would be re-used: hash of another image)")
+        run.floor(rid, f"authorization uses on the `{op}` paths", n_sites, 2)
